@@ -237,6 +237,11 @@ class Interp:
         self.globals = {}
         self.funcs = {}
         self.trace_calls = []
+        # Go leaves the order between reading a variable operand and a later call in the same
+        # expression unspecified (TypeShell reads the variable late).  Programs in which a call
+        # writes a global that a suspended expression has already read are treated as undefined.
+        self.cur_reads = set()
+        self.pending = []
 
     def tick(self):
         self.steps += 1
@@ -281,7 +286,10 @@ class Interp:
         if k in ("int", "bool", "str"):
             return e[1]
         if k == "var":
-            return self.lookup(e[1], env, genv)[e[1]]
+            d = self.lookup(e[1], env, genv)
+            if d is genv:
+                self.cur_reads.add(e[1])
+            return d[e[1]]
         if k == "group":
             return self.ev(e[1], env, genv)
         if k == "not":
@@ -360,20 +368,30 @@ class Interp:
         self.tick()
         params, rets, body = self.funcs[name]
         env = {n: v for (n, _), v in zip(params, args)}
+        self.pending.append(self.cur_reads)
+        self.cur_reads = set()
         try:
             self.block(body, env, genv)
         except ReturnEx as r:
             return r.vals
+        finally:
+            self.cur_reads = self.pending.pop()
         if rets:
             raise Undefined("missing return")
         return []
+
+    def wrote(self, d, n, genv):
+        if d is genv and any(n in s for s in self.pending):
+            raise Undefined("call writes a global that a suspended expression has already read")
 
     def assign(self, names, vals, env, genv, define):
         for n, v in zip(names, vals):
             if define and n not in env:
                 env[n] = v
             else:
-                self.lookup(n, env, genv)[n] = v
+                d = self.lookup(n, env, genv)
+                self.wrote(d, n, genv)
+                d[n] = v
 
     def rhs(self, exprs, n, env, genv):
         if len(exprs) == 1 and exprs[0][0] == "call" and n != 1:
@@ -390,6 +408,7 @@ class Interp:
 
     def stmt(self, s, env, genv):
         self.tick()
+        self.cur_reads = set()
         k = s[0]
         if k == "vardef":
             _, style, names, typ, exprs = s
@@ -409,10 +428,14 @@ class Interp:
             self.assign(s[1], vals, env, genv, False)
         elif k == "opassign":
             cur = self.lookup(s[1], env, genv)[s[1]]
+            if self.lookup(s[1], env, genv) is genv:
+                self.cur_reads.add(s[1])
             v = self.ev(("bin", s[2], ("int" if not isinstance(cur, str) else "str", cur), s[3], None), env, genv)
+            self.wrote(self.lookup(s[1], env, genv), s[1], genv)
             self.lookup(s[1], env, genv)[s[1]] = v
         elif k == "incdec":
             d = self.lookup(s[1], env, genv)
+            self.wrote(d, s[1], genv)
             d[s[1]] = wrap64(d[s[1]] + (1 if s[2] == "++" else -1))
         elif k == "sliceassign":
             i = self.ev(s[2], env, genv)
@@ -468,6 +491,7 @@ class Interp:
             first = True
             while True:
                 self.tick()
+                self.cur_reads = set()
                 if not first and incr is not None:
                     self.stmt(incr, env, genv)
                 first = False
@@ -1087,6 +1111,201 @@ def generate(rng, cfg, tries=50):
     for _ in range(tries):
         g = Gen(rng, cfg)
         prog = g.program()
+        try:
+            out, status = interpret(prog)
+        except Undefined:
+            continue
+        except RecursionError:
+            continue
+        return prog, pp_program(prog), out, status, g.kinds
+    return None
+
+
+# ------------------------------------------------------------------------------------------------
+# identifier reuse (C02): locals of different functions share names; later globals reuse them
+
+def _subst_expr(e, m):
+    if e is None:
+        return None
+    k = e[0]
+    if k == "var":
+        return ("var", m.get(e[1], e[1])) + tuple(e[2:])
+    if k in ("int", "bool", "str"):
+        return e
+    if k in ("bin", "cmp", "log"):
+        return (k, e[1], _subst_expr(e[2], m), _subst_expr(e[3], m)) + tuple(e[4:])
+    if k in ("not", "group", "len", "itoa", "exists", "read"):
+        return (k, _subst_expr(e[1], m))
+    if k == "call":
+        return ("call", e[1], [_subst_expr(a, m) for a in e[2]], e[3])
+    if k == "slicelit":
+        return ("slicelit", e[1], [_subst_expr(a, m) for a in e[2]])
+    if k == "index":
+        return ("index", _subst_expr(e[1], m), _subst_expr(e[2], m), e[3])
+    if k == "strindex":
+        return ("strindex", _subst_expr(e[1], m), _subst_expr(e[2], m))
+    if k == "substr":
+        return ("substr", _subst_expr(e[1], m), _subst_expr(e[2], m), _subst_expr(e[3], m))
+    if k == "copy":
+        return ("copy", _subst_expr(e[1], m), _subst_expr(e[2], m))
+    if k == "input":
+        return ("input", _subst_expr(e[1], m))
+    if k == "app":
+        return ("app", [(n, [_subst_expr(a, m) for a in args]) for n, args in e[1]])
+    raise ValueError(k)
+
+
+def _subst_block(b, m):
+    return None if b is None else [_subst_stmt(s, m) for s in b]
+
+
+def _subst_stmt(s, m):
+    k = s[0]
+    g = lambda n: m.get(n, n)
+    if k == "vardef":
+        return ("vardef", s[1], [g(n) for n in s[2]], s[3], None if s[4] is None else [_subst_expr(x, m) for x in s[4]])
+    if k == "assign":
+        return ("assign", [g(n) for n in s[1]], [_subst_expr(x, m) for x in s[2]])
+    if k == "opassign":
+        return ("opassign", g(s[1]), s[2], _subst_expr(s[3], m))
+    if k == "incdec":
+        return ("incdec", g(s[1]), s[2])
+    if k == "sliceassign":
+        return ("sliceassign", g(s[1]), _subst_expr(s[2], m), _subst_expr(s[3], m))
+    if k == "if":
+        return ("if", [(_subst_expr(c, m), _subst_block(b, m)) for c, b in s[1]], _subst_block(s[2], m))
+    if k == "switch":
+        return ("switch", _subst_expr(s[1], m), [(_subst_expr(c, m), _subst_block(b, m)) for c, b in s[2]], _subst_block(s[3], m))
+    if k == "for3":
+        return ("for3", None if s[1] is None else _subst_stmt(s[1], m), _subst_expr(s[2], m), None if s[3] is None else _subst_stmt(s[3], m), _subst_block(s[4], m))
+    if k == "forcond":
+        return ("forcond", _subst_expr(s[1], m), _subst_block(s[2], m))
+    if k == "forever":
+        return ("forever", _subst_block(s[1], m))
+    if k == "forrange":
+        return ("forrange", g(s[1]), g(s[2]) if s[2] else s[2], _subst_expr(s[3], m), _subst_block(s[4], m))
+    if k in ("break", "continue"):
+        return s
+    if k == "print":
+        return ("print", [_subst_expr(x, m) for x in s[1]])
+    if k == "write":
+        return ("write", [_subst_expr(x, m) for x in s[1]])
+    if k == "panic":
+        return ("panic", _subst_expr(s[1], m))
+    if k == "return":
+        return ("return", [_subst_expr(x, m) for x in s[1]])
+    if k == "exprstmt":
+        return ("exprstmt", _subst_expr(s[1], m))
+    if k == "func":
+        return ("func", s[1], [(g(n), t) for n, t in s[2]], s[3], _subst_block(s[4], m))
+    raise ValueError(k)
+
+
+def _defined_names(body, acc):
+    for s in body:
+        k = s[0]
+        if k == "vardef":
+            acc.extend(s[2])
+        elif k == "if":
+            for _, b in s[1]:
+                _defined_names(b, acc)
+            if s[2] is not None:
+                _defined_names(s[2], acc)
+        elif k == "switch":
+            for _, b in s[2]:
+                _defined_names(b, acc)
+            if s[3] is not None:
+                _defined_names(s[3], acc)
+        elif k == "for3":
+            if s[1] is not None:
+                _defined_names([s[1]], acc)
+            _defined_names(s[4], acc)
+        elif k == "forcond":
+            _defined_names(s[2], acc)
+        elif k == "forever":
+            _defined_names(s[1], acc)
+        elif k == "forrange":
+            acc.append(s[1])
+            if s[2]:
+                acc.append(s[2])
+            _defined_names(s[4], acc)
+    return acc
+
+
+POOL = ["a", "b", "c", "d", "n", "x", "y", "i", "j", "s", "t", "k", "m", "p", "q", "r", "u", "w", "z", "aa", "bb", "cc", "dd", "xx",
+        "yy", "ii", "jj", "nn", "ss", "tt"]
+
+
+def reuse_names(rng, prog):
+    """Consistent renaming that makes parameters/locals of different functions coincide and lets
+    globals defined after a function reuse that function's local names (both are legal)."""
+    out = []
+    globals_so_far = set()
+    used_by_funcs = []
+    for s in prog:
+        if s[0] == "func":
+            locs = [n for n, _ in s[2]] + _defined_names(s[4], [])
+            locs = list(dict.fromkeys(locs))
+            avail = [p for p in POOL if p not in globals_so_far]
+            if len(avail) >= len(locs):
+                names = avail[:max(len(locs), 1) + 3]
+                rng.shuffle(names)
+                m = dict(zip(locs, names))
+                used_by_funcs.extend(m.values())
+                s = _subst_stmt(s, m)
+            out.append(s)
+        else:
+            out.append(s)
+            if s[0] == "vardef":
+                globals_so_far.update(s[2])
+    # rename globals defined after all functions that use a pool name
+    last_use = {}
+    for idx, s in enumerate(out):
+        if s[0] == "func":
+            for n in [p for p, _ in s[2]] + _defined_names(s[4], []):
+                last_use[n] = idx
+    gm = {}
+    taken = set()
+    for idx, s in enumerate(out):
+        if s[0] == "vardef":
+            for n in s[2]:
+                cands = [p for p, li in last_use.items() if li < idx and p not in taken and p in POOL]
+                if cands and rng.random() < 0.6:
+                    q_ = rng.choice(cands)
+                    gm[n] = q_
+                    taken.add(q_)
+    if gm:
+        # a renamed global must not be visible inside functions that use the same name locally:
+        # those functions were all defined before it, so they cannot refer to it.
+        res = []
+        for s in out:
+            if s[0] == "func":
+                locs = set(n for n, _ in s[2]) | set(_defined_names(s[4], []))
+                res.append(_subst_stmt(s, {k_: v for k_, v in gm.items() if v not in locs}))
+            else:
+                res.append(_subst_stmt(s, gm))
+        out = res
+    return out
+
+
+def add_tracers(prog):
+    """C04: every function announces itself (name and scalar arguments) when it runs."""
+    out = []
+    for s in prog:
+        if s[0] == "func":
+            args = [("var", n, t) for n, t in s[2] if not t.startswith("[]")]
+            s = ("func", s[1], s[2], s[3], [("print", [("str", s[1])] + args)] + s[4])
+        out.append(s)
+    return out
+
+
+def generate2(rng, cfg, transform=None, tries=50):
+    """like generate, with an AST transformation applied before interpretation"""
+    for _ in range(tries):
+        g = Gen(rng, cfg)
+        prog = g.program()
+        if transform is not None:
+            prog = transform(prog)
         try:
             out, status = interpret(prog)
         except Undefined:
